@@ -54,6 +54,11 @@ def method(ex, recv, name, args, kwargs, node):
             ex.implicit_exc("KeyError", recv.dom[kt], ex.site(node))
             _wb(ex, node, recv.with_(dom=z3.Store(recv.dom, kt, False)))
             return recv.vty.wrap(recv.val[kt])
+        if name == "setdefault" and len(args) == 2 and recv.default is None:
+            kt, vt = recv.kty.unwrap(args[0]), recv.vty.unwrap(args[1])
+            had = recv.dom[kt]
+            _wb(ex, node, recv.with_(dom=z3.Store(recv.dom, kt, True), val=z3.If(had, recv.val, z3.Store(recv.val, kt, vt))))
+            return recv.vty.wrap(z3.If(had, recv.val[kt], vt))
         if name == "copy":
             return recv.with_()
         if name == "keys":
